@@ -22,7 +22,7 @@ func Leave(m *memberlist.Memberlist, timeout time.Duration) error {
 	}
 	err := m.Leave(time.Nanosecond)
 	if err != nil {
-		vtime.Sleep(timeout)
+		wait(timeout)
 	}
 	return err
 }
@@ -33,7 +33,15 @@ func UpdateNode(m *memberlist.Memberlist, timeout time.Duration) error {
 	}
 	err := m.UpdateNode(time.Nanosecond)
 	if err != nil {
-		vtime.Sleep(timeout)
+		wait(timeout)
 	}
 	return err
+}
+
+// wait lets the timeout pass in virtual time if the harness lets virtual time run that far (a
+// harness that set no horizon gets the old behaviour: the call returns at once).
+func wait(timeout time.Duration) {
+	if vsched.Elapsed()+int64(timeout) <= vsched.Horizon() {
+		vtime.Sleep(timeout)
+	}
 }
